@@ -197,6 +197,8 @@ func main() {
 	r.Cases("unpad", r.N(400000, 16000000), opt, unpadCase)
 	r.Cases("pad-roundtrip", r.N(rtCombos+40000, rtCombos+3000000), opt, padRoundTripCase)
 	r.Cases("bad-key", r.N(820, 41000), opt, badKeyCase)
+	r.CasesProc("cold-start", 16, ev.Opt{Procs: 16}, coldCase)
+	r.Cases("big", r.N(24, 600), ev.Opt{Workers: 8, MaxCaseSeconds: 300}, bigCase)
 	r.Cases("arena", r.N(30000, 1000000), opt, arenaCase)
 	r.Cases("buffer-reuse", r.N(20000, 600000), opt, reuseCase)
 
@@ -243,6 +245,8 @@ func main() {
 		"key_size_invalid_rejected":             2000,
 		"key_size_valid_control":                30,
 		"arena_cases":                           10000,
+		"cold_start_cases":                      16,
+		"big_cases":                             20,
 		"reuse_steps":                           30000,
 		"reuse_stale_messages_rejected":         10000,
 	} {
